@@ -26,6 +26,7 @@ Sentences of the property and where they are stated:
 -/
 import X86Model.Model.GeneralHandler
 import X86Model.Spec.ExceptionTable
+import X86Model.Proofs.GeneralHandler
 
 namespace X86.C13
 open X86 X86.GH X86.Spec.Exc X86.Generated.GH
@@ -161,84 +162,26 @@ example : (Form.single 14).toRange = some (.incl 14 14) := (single_index_form 14
 
 /-! ## Installation, for every range -/
 
-theorem foldR_append {α β : Type} (f : β → α → R β) (b : β) (l₁ l₂ : List α) :
-    foldR f b (l₁ ++ l₂) = match foldR f b l₁ with
-      | .ok b' => foldR f b' l₂
-      | .panic => .panic := by
-  induction l₁ generalizing b with
-  | nil => simp [foldR]
-  | cons a as ih =>
-    simp only [List.cons_append, foldR]
-    cases f b a with
-    | ok b' => simpa using ih b'
-    | panic => rfl
-
 /-- The table entry the installation must produce at `v`. -/
 def want (r : RangeArg) (v : Nat) : Option Stub :=
   if r.contains v = true ∧ isReserved v = false then some (specStub v) else none
-
-/-- Running the first `n` conforming expansions on a table of 256 entries. -/
-theorem fold_conforming (r : RangeArg) (t0 : Delta) (h0 : t0.size = 256) (n : Nat) (hn : n ≤ 256) :
-    ∃ t, foldR (step r) t0 ((List.range n).map (fun v => (v, R.ok (specEffect v)))) = .ok t ∧
-      t.size = 256 ∧
-      ∀ v, t[v]? = if v < n ∧ r.contains v = true ∧ isReserved v = false then some (some (specStub v)) else t0[v]? := by
-  induction n with
-  | zero => exact ⟨t0, by simp [foldR], h0, by simp⟩
-  | succ n ih =>
-    obtain ⟨t, ht, hsz, hget⟩ := ih (by omega)
-    rw [List.range_succ, List.map_append, foldR_append, ht]
-    simp only [List.map_cons, List.map_nil, foldR, step]
-    by_cases hc : r.contains n = true
-    · simp only [hc, if_true]
-      by_cases hr : isReserved n = true
-      · -- reserved: nothing is written
-        simp only [specEffect, hr, if_true]
-        refine ⟨t, rfl, hsz, ?_⟩
-        intro v
-        rw [hget v]
-        by_cases hv : v = n
-        · subst hv; simp [hr]
-        · have : (v < n + 1) = (v < n) := by apply propext; omega
-          simp [this]
-      · have hr' : isReserved n = false := by simpa using hr
-        simp only [specEffect, hr', Bool.false_eq_true, if_false]
-        refine ⟨t.setIfInBounds n (some (specStub n)), rfl, by simp [hsz], ?_⟩
-        intro v
-        rw [Array.getElem?_setIfInBounds]
-        by_cases hv : n = v
-        · subst hv
-          have : n < t.size := by omega
-          simp [this, hc, hr']
-        · simp only [hv, if_false]
-          rw [hget v]
-          have : (v < n + 1) = (v < n) := by apply propext; omega
-          simp [this]
-    · have hc' : r.contains n = false := by simpa using hc
-      simp only [hc', Bool.false_eq_true, if_false]
-      refine ⟨t, rfl, hsz, ?_⟩
-      intro v
-      rw [hget v]
-      by_cases hv : v = n
-      · subst hv; simp [hc']
-      · have : (v < n + 1) = (v < n) := by apply propext; omega
-        simp [this]
 
 /-- **Installation, all ranges.** For every range (of every `RangeBounds` shape and all bounds),
 `set_general_handler!` never panics and produces, for every vector `v`: the architecturally required
 stub at entry `v` when `v` is in the range and not reserved; no write at all otherwise. -/
 theorem install_spec (r : RangeArg) :
     ∃ t, install r = .ok t ∧ t.size = 256 ∧ ∀ v, v < 256 → t[v]? = some (want r v) := by
-  obtain ⟨t, ht, hsz, hget⟩ := fold_conforming r Delta.empty (by simp [Delta.empty]) 256 (by omega)
+  have hfun : (fun v => (v, R.ok (specEffect v))) =
+      (fun v => (v, R.ok ((if isReserved v then none else some (specStub v)).map (fun s => (v, s))))) := by
+    funext v; unfold specEffect; cases isReserved v <;> rfl
+  obtain ⟨t, ht, hsz, hget⟩ := fold_writes_own_slot r (fun v => if isReserved v then none else some (specStub v))
+    Delta.empty (by simp [Delta.empty]) 256 (by omega)
   refine ⟨t, ?_, hsz, ?_⟩
-  · rw [install, effects_conform]; exact ht
+  · rw [install, effects_conform, hfun]; exact ht
   · intro v hv
     rw [hget v]
     unfold want
-    by_cases h : r.contains v = true ∧ isReserved v = false
-    · simp [h, hv]
-    · have h' : ¬(v < 256 ∧ r.contains v = true ∧ isReserved v = false) := fun hh => h hh.2
-      rw [if_neg h', if_neg h]
-      simp [Delta.empty, hv]
+    cases hr : isReserved v <;> cases hc : r.contains v <;> simp [hv, Delta.empty]
 
 theorem install_never_panics (r : RangeArg) : install r ≠ .panic := by
   obtain ⟨t, ht, _⟩ := install_spec r
